@@ -516,6 +516,12 @@ class BeautifulSoup(Tag):
         # don't need it.
         if "_most_recent_element" in d:
             del d["_most_recent_element"]
+
+        # The same goes for the link to the first element of the
+        # tree, which is set once the tree has been modified or
+        # copied. The tree will be rebuilt from the markup; pickling
+        # the objects themselves would recurse through all of them.
+        d["next_element"] = None
         return d
 
     def __setstate__(self, state: Dict[str, Any]) -> None:
